@@ -80,6 +80,7 @@ fn predict(d: &Desc, cur: &Value, bytes: &[u8], off: usize, avail: usize, op: &O
     let panics = |c: &'static str| Some(Pred { expect: Expect::Panic, new_node: None, cause: c });
     match (d, op) {
         (_, Op::Set(v)) if d.is_sized() => done(v.clone()),
+        (_, Op::Assign(v, _)) if !sealable(d, v) => refused("offset-not-representable"),
         (_, Op::Assign(v, _)) => match fits(d, v, avail, rng) {
             Some(true) => done(v.clone()),
             Some(false) => refused("no-room"),
@@ -270,6 +271,20 @@ const STRS: &[&str] = &["", "a", "ab", "abc", "é", "€", "𝄞", "xyz€", "he
 fn gen_op(prop: &str, d: &Desc, cur: &Value, avail: usize, rng: &mut Rng) -> Option<Op> {
     let assign_bias = prop == "C18";
     let assign_ok = matches!(prop, "C18" | "C14" | "C05");
+    if let Desc::Flex { item, len } = d {
+        // a replacement whose non-last item sits around the largest sealable size: the initialiser has to refuse the
+        // ones whose offset would be the `L::MAX` marker or beyond (one-byte offsets only: the others need huge items)
+        if len.size == 1 && matches!(prop, "C18" | "C12" | "C13" | "C14" | "C05") && avail > 260 && rng.chance(1, if assign_bias { 6 } else { 30 }) {
+            let (slot, al) = (d.flex_slot(), d.align());
+            let target = (len.max_usize() + al * rng.range(0, 2)).saturating_sub(slot + al);
+            if let Some(big) = value_with_extent(item, target, rng) {
+                let mut items: Vec<Value> = (0..rng.below(2)).map(|_| gen_value(item, rng, 4)).collect();
+                items.push(big);
+                items.extend((0..rng.range(1, 2)).map(|_| gen_value(item, rng, 4)));
+                return Some(Op::Assign(Value::Seq(items), rng.next()));
+            }
+        }
+    }
     if !d.is_sized() && assign_ok && (assign_bias && rng.chance(3, 4) || rng.chance(1, 12)) {
         // replacement values of very different sizes so that failing and succeeding assigns occur
         let budget = *rng.pick(&[0usize, 2, 4, 8, avail / 2, avail, avail + avail / 2 + 4]);
